@@ -86,6 +86,11 @@ func (s *shareParty) val(e ast.Expr) gpoly {
 			return gvar(fmt.Sprintf("z%d", s.self))
 		case name == "new":
 			return gpoly{}
+		case name == "make":
+			// a fresh byte buffer: the integer zero, written by FillBytes / XOR-ed into element-wise below
+			return gpoly{}
+		case name == "FillBytes":
+			return s.val(c.Fun.(*ast.SelectorExpr).X)
 		}
 		s.bad("value of call %s is not modelled", cx(c.Fun))
 		return nil
@@ -116,7 +121,15 @@ func (s *shareParty) inline(fn *types.Func, recvExpr ast.Expr, args []ast.Expr) 
 		for _, n := range f.Names {
 			if i < len(args) {
 				// a value argument is copied into the callee's local
-				if _, isPeer := s.partyOf(args[i]); isPeer || s.canon(args[i]) == "nw" {
+				refType := false
+				if t := s.pkg.TypesInfo.TypeOf(args[i]); t != nil {
+					switch t.Underlying().(type) {
+					case *types.Slice, *types.Map:
+						// the callee works on the caller's storage
+						_, refType = s.env[s.canon(args[i])]
+					}
+				}
+				if _, isPeer := s.partyOf(args[i]); isPeer || s.canon(args[i]) == "nw" || refType {
 					ren[n.Name] = s.canon(args[i])
 				} else {
 					local := fmt.Sprintf("%s#%s", fn.Name(), n.Name)
@@ -182,7 +195,27 @@ func (s *shareParty) call(c *ast.CallExpr, lhs []ast.Expr) {
 			s.isSet[k] = true
 		}
 	case name == "Flush" || name == "Printf" || name == "debugf" || name == "andBatchFlush" || name == "SetBit" || name == "Errorf":
-	case name == "SetBytes" || name == "Bytes" || name == "Rsh" || name == "NewInt" || name == "Set":
+	case name == "FillBytes" && len(c.Args) == 1:
+		// x.FillBytes(buf): buf holds x at its full width
+		if v := s.val(c.Fun.(*ast.SelectorExpr).X); v != nil {
+			k := s.canon(c.Args[0])
+			s.env[k] = v
+			s.isSet[k] = true
+			if len(lhs) == 1 {
+				l := s.canon(lhs[0])
+				s.env[l] = v
+				s.isSet[l] = true
+			}
+		}
+	case name == "copy" && len(c.Args) == 2:
+		if _, tracked := s.env[s.canon(c.Args[1])]; tracked {
+			if v := s.val(c.Args[1]); v != nil {
+				k := s.canon(c.Args[0])
+				s.env[k] = v
+				s.isSet[k] = true
+			}
+		}
+	case name == "SetBytes" || name == "Bytes" || name == "Rsh" || name == "NewInt" || name == "Set" || name == "make":
 		if len(lhs) == 1 {
 			if v := s.val(c); v != nil {
 				k := s.canon(lhs[0])
@@ -251,6 +284,27 @@ func (s *shareParty) stmt(st ast.Stmt) tOutcome {
 			return tContinue
 		}
 	case *ast.RangeStmt:
+		// for i, b := range data { buf[i] ^= b }: buf ^= data (positions are the business of the length rule)
+		if key, okK := x.Key.(*ast.Ident); okK && x.Value != nil && len(x.Body.List) == 1 {
+			if as, ok := x.Body.List[0].(*ast.AssignStmt); ok && as.Tok == token.XOR_ASSIGN && len(as.Lhs) == 1 && len(as.Rhs) == 1 {
+				ix, ok1 := as.Lhs[0].(*ast.IndexExpr)
+				rv, ok2 := ast.Unparen(as.Rhs[0]).(*ast.Ident)
+				vv, ok3 := x.Value.(*ast.Ident)
+				if ok1 && ok2 && ok3 && rv.Name == vv.Name {
+					if id, ok := ast.Unparen(ix.Index).(*ast.Ident); ok && id.Name == key.Name {
+						if _, tracked := s.env[s.canon(x.X)]; tracked {
+							a, b := s.val(ix.X), s.val(x.X)
+							if a != nil && b != nil {
+								k := s.canon(ix.X)
+								s.env[k] = a.xor(b)
+								s.isSet[k] = true
+							}
+							return tNext
+						}
+					}
+				}
+			}
+		}
 		if isSel(x.X, "peers") {
 			for j := 0; j < s.n; j++ {
 				s.peer = j
@@ -303,6 +357,23 @@ func (s *shareParty) stmt(st ast.Stmt) tOutcome {
 			if s.touchesExchange(x) {
 				s.bad("an exchange under the undecided condition %s", cs)
 			}
+		}
+	case *ast.GoStmt:
+		// go func() { ch <- exchange(...) }(): the exchange runs (its messages are matched per ordered pair, so
+		// when exactly it runs does not matter to the share algebra); the later `<-ch` only carries its error
+		if fl, ok := x.Call.Fun.(*ast.FuncLit); ok && len(x.Call.Args) == 0 {
+			for _, inner := range fl.Body.List {
+				switch t := inner.(type) {
+				case *ast.SendStmt:
+					s.stmt(&ast.ExprStmt{X: t.Value})
+				default:
+					s.stmt(inner)
+				}
+			}
+			return tNext
+		}
+		if s.touchesExchange(st) {
+			s.bad("statement %T around an exchange is not modelled", st)
 		}
 	default:
 		if s.touchesExchange(st) {
